@@ -24,12 +24,12 @@ func init() {
 				Flavours: []string{"plain", "race", "cover", "386"},
 				Blocks:   32,
 				Procs:    16,
-				Rule: "(o) sparse-observation histories (trees of 64+ keys, operations chosen with locality, only the results of Get/Min/Max/Add/Replace/Remove themselves observed, on a tree and its clones), nested and interleaved scans (InorderAfter started inside a running scan; pull iterators on a tree and its clone stepped alternately), 8 goroutines each working on its own Clone of one prototype, and 8 goroutines that only read one shared tree with no writer around (Get, Min, Max, Len, Inorder, InorderAfter, Cursor walks; both also under -race); (i) rebuild sweep (seed-independent): the delete-side whole-tree rebuild is forced to run at exactly size s for every s <= 400 (2500 thorough) and for 2^k-3..2^k+3, k <= 13 (16), and the contents are compared afterwards; (ii) case = (beta, comparator granularity incl. comparators that return differences instead of -1/0/+1, bulk-New keys, phase-structured history of Add/Replace/Remove/Clear/Clone over up to 3 live trees). " +
+				Rule: "(o) sparse-observation histories (trees of 64+ keys, operations chosen with locality, only the results of Get/Min/Max/Add/Replace/Remove themselves observed, on a tree and its clones), nested and interleaved scans (InorderAfter started inside a running scan; pull iterators on a tree and its clone stepped alternately), 8 goroutines each working on its own Clone of one prototype, and 8 goroutines that only read one shared tree with no writer around (Get, Min, Max, Len, Inorder, InorderAfter, Cursor walks; both also under -race); (i') deep-then-shrunk trees: monotone insertions at 14 loose balance factors x 6 sizes, then removal of the far end key by key with InorderAfter from below the minimum, the minimum, the middle and the maximum checked after every removal; (i) rebuild sweep (seed-independent): the delete-side whole-tree rebuild is forced to run at exactly size s for every s <= 400 (2500 thorough) and for 2^k-3..2^k+3, k <= 13 (16), and the contents are compared afterwards; (ii) case = (beta, comparator granularity incl. comparators that return differences instead of -1/0/+1, bulk-New keys, phase-structured history of Add/Replace/Remove/Clear/Clone over up to 3 live trees). " +
 					"Phases: ascending / descending / zig-zag / random inserts, mixed random ops, drains (to empty, to 1/8, to 1/2; ascending, descending, random order), forced two-child removals followed by Get of the promoted successor, Clear, Clone. " +
 					"After EVERY call: Len, IsEmpty, Min, Max, (every fifth step first a scan abandoned half-way: its loop body panics and the caller recovers,) full Inorder (with stored tags), Inorder early stop, Get for all/sampled keys, InorderAfter for sampled keys with early stop; range functions returned by InorderAfter are put aside and ranged only after later Add/Remove/Clear calls (they must then describe the tree as it is at that moment). " +
 					"beta: quick uses {0,1,2,50,100,250,500,750,999,1000}; thorough additionally sweeps every beta in 0..1000. " +
 					"distinct = hash of (beta, div, every op with its key); non-trivial = the history contained a scapegoat rebuild on insert, a delete-side whole rebuild, or a two-child removal (detected from the tree shape read through Root/Left/Right)",
-				Required:     []string{"insert_rebuilds", "delete_rebuilds", "two_child_removals", "new_with_duplicates", "clones", "replace_existing", "steps", "histories_with_wide_comparator", "rebuilds_at_exact_size", "clone_worker_rounds", "sparse_observation_histories", "nested_scan_cases", "abandoned_scans", "kept_range_functions_ranged_later", "shared_reader_rounds"},
+				Required:     []string{"insert_rebuilds", "delete_rebuilds", "two_child_removals", "new_with_duplicates", "clones", "replace_existing", "steps", "histories_with_wide_comparator", "rebuilds_at_exact_size", "clone_worker_rounds", "sparse_observation_histories", "nested_scan_cases", "abandoned_scans", "kept_range_functions_ranged_later", "shared_reader_rounds", "deep_then_shrink_cases"},
 				Assumptions:  []string{"reference model: sorted slice with textbook set semantics", "tree shape for reach counters is read through stree.Cursor (checked separately by C03)"},
 				CoverPkgs:    []string{"github.com/creachadair/mds/stree"},
 				CoverAnchors: []string{"stree/stree.go", "stree/node.go"},
@@ -694,6 +694,20 @@ func runC01(c *fw.Ctx) {
 	if c.Flavour == "race" {
 		return
 	}
+	{
+		betas := []int{600, 650, 700, 729, 750, 800, 825, 850, 871, 900, 950, 990, 500, 250}
+		sizes := []int{130, 200, 386, 512, 1000, 2000}
+		for k := 0; k < len(betas)*len(sizes); k++ {
+			if k%c.NBlocks != c.Block || !c.Begin(1<<22+1000+k) {
+				continue
+			}
+			b, n := betas[k%len(betas)], sizes[k/len(betas)]
+			ok, pv, stack := fw.Try(func() { c01deepThenShrink(c, b, n, k%5 != 4) })
+			if !ok {
+				c.FailKind("panic", map[string]any{"phase": "deep one-sided tree, then shrunk", "beta": b, "keys_inserted": n}, "panic: %v\n%s", pv, stack)
+			}
+		}
+	}
 	c01rebuildSweep(c, 1<<20)
 	for k := 0; k < c.Pick(6, 60); k++ {
 		if !c.Begin(1<<21 + k) {
@@ -952,4 +966,82 @@ func c01history(h *c01hist, caseIdx int) {
 			}
 		}
 	}
+}
+
+// c01deepThenShrink: keys inserted in descending (or ascending) order at a
+// loose balance factor give a one-sided path much deeper than a tree of the
+// final size would have; then the keys at the far end are removed one by one,
+// so that Len shrinks while the deep path stays. After every removal
+// InorderAfter from below the minimum, from the minimum, from the middle and
+// from the maximum, Inorder, Min, Max and Get are compared with the key set.
+func c01deepThenShrink(c *fw.Ctx, beta, n int, descending bool) {
+	t := stree.New(beta, cmpElem)
+	keys := make([]int, n)
+	for i := range keys {
+		keys[i] = (i + 1) * 2
+	}
+	if descending {
+		for i := n - 1; i >= 0; i-- {
+			t.Add(Elem{Key: keys[i], Tag: i + 1})
+		}
+	} else {
+		for i := 0; i < n; i++ {
+			t.Add(Elem{Key: keys[i], Tag: i + 1})
+		}
+	}
+	data := map[string]any{"beta": beta, "keys_inserted": n, "order": map[bool]string{true: "descending", false: "ascending"}[descending]}
+	lo, hi := 0, n // live keys are keys[lo:hi]
+	after := func(from int) bool {
+		want := lo
+		for want < hi && keys[want] < from {
+			want++
+		}
+		j := want
+		for e := range t.InorderAfter(Elem{Key: from}) {
+			if j >= hi || e.Key != keys[j] || e.Tag != j+1 {
+				c.Fail(data, "with %d keys left: InorderAfter(%d) yields %v at position %d, want key %d", hi-lo, from, e, j-want, keys[min(j, n-1)])
+				return false
+			}
+			j++
+		}
+		if j != hi {
+			c.Fail(data, "with %d keys left: InorderAfter(%d) stops after %d of %d keys", hi-lo, from, j-want, hi-want)
+			return false
+		}
+		return true
+	}
+	for hi-lo > 2 {
+		// remove at the end away from the deep path
+		if descending {
+			hi--
+			t.Remove(Elem{Key: keys[hi]})
+		} else {
+			t.Remove(Elem{Key: keys[lo]})
+			lo++
+		}
+		if t.Len() != hi-lo || t.Min().Key != keys[lo] || t.Max().Key != keys[hi-1] {
+			c.Fail(data, "with %d keys left: Len=%d Min=%v Max=%v", hi-lo, t.Len(), t.Min(), t.Max())
+			return
+		}
+		if !after(keys[lo]-1) || !after(keys[lo]) || !after(keys[(lo+hi)/2]+1) || !after(keys[hi-1]) || !after(keys[hi-1]+1) {
+			return
+		}
+		if (hi-lo)%16 == 0 {
+			j := lo
+			t.Inorder(func(e Elem) bool {
+				if j < hi && e.Key == keys[j] {
+					j++
+					return true
+				}
+				j = -1
+				return false
+			})
+			if j != hi {
+				c.Fail(data, "with %d keys left: Inorder differs from the key set", hi-lo)
+				return
+			}
+			c.Step()
+		}
+	}
+	c.Add("deep_then_shrink_cases", 1)
 }
